@@ -137,3 +137,51 @@ def _ffr_finish(c, outcome, args, old):
 
 _upgrade(EXEC + "_finalize_failed_run", ["C03", "C05"],
          args=dict(self=_job_executor, run=ty.Make(_RunStub)), finish=_ffr_finish)
+
+
+# ---------------------------------------------------------------- Workflow.mark_consuming_steps_pending
+
+from vc.engine import LoopSpec  # noqa: E402
+
+
+class _McStep:
+    def __init__(self, name):
+        self.i = ty.Int.fresh(name + ".i")
+
+
+class _McFile:
+    def __init__(self, name):
+        self.name = name
+
+    def sinks(self, node_type=None, include_detached=False):
+        cur().event("mc.sinks", node_type=node_type, include_detached=include_detached)
+        return ty.SeqOf(ty.Make(_McStep)).fresh("sinks")
+
+
+class _McWorkflow:
+    def __init__(self, name):
+        self.name = name
+
+    def mark_step_pending(self, step):
+        cur().event("mc.mark_step_pending", step=step)
+
+
+def _mc_iteration(e):
+    marks = [ev for ev in e.iter_trace if ev.kind == "mc.mark_step_pending"]
+    return len(marks) == 1 and marks[0].step is e.current
+
+
+def _mcsp_finish(c, outcome, args, old):
+    """Every consuming step -- detached ones included: a detached SUCCEEDED step whose input changed would otherwise be
+    recycled as up to date -- goes through mark_step_pending (loop body, for an arbitrary consumer)."""
+    if outcome[0] != "return":
+        return
+    asked = [e for e in c.trace if e.kind == "mc.sinks"]
+    c.prove("consumers_are_the_step_sinks_detached_included", tm.mk_bool(
+        len(asked) == 1 and getattr(asked[0].node_type, "__name__", "") == "Step" and asked[0].include_detached is True),
+        kind="post", detail=str([(getattr(e.node_type, "__name__", e.node_type), e.include_detached) for e in asked]))
+
+
+_upgrade("stepup/core/workflow.py::Workflow.mark_consuming_steps_pending", ["C09", "C03", "C04", "C05"],
+         args=dict(self=ty.Make(_McWorkflow), file=ty.Make(_McFile)), finish=_mcsp_finish,
+         loops={0: LoopSpec(step_post=_mc_iteration)})
